@@ -162,6 +162,27 @@ def one_tree(rng, acc, d):
         acc.violation("tree-vs-walker:" + k[1], f"dir_hashsums differs from the independent walker at {k[0]}: got {k[2]!r} expected {k[3]!r}; links={links}",
                       {"spec": describe(spec), "links": links})
         return
+    # the same directory named differently: through a symlinked parent directory, with a '..' component, relative to the cwd
+    alias_parent = d / "alias-parent"
+    if not alias_parent.exists():
+        os.symlink(d, alias_parent)
+    spellings = {"symlinked parent": alias_parent / "A", "dotdot component": d / "B" / ".." / "A"}
+    try:
+        spellings["relative to cwd"] = Path(os.path.relpath(A))
+    except ValueError:
+        pass
+    for how, pth in spellings.items():
+        acc.count("spellings_hashed")
+        try:
+            hs = dir_hashsums(pth)
+        except Exception as e:
+            acc.violation(f"spelling-refused:{how}", f"dir_hashsums of the same directory named through a {how} raised {type(e).__name__}: {str(e)[:100]}; links={links}",
+                          {"spec": describe(spec), "links": links})
+            return
+        if hs != ha:
+            k = first_diff(hs, ha)
+            acc.violation(f"spelling-differs:{how}", f"dir_hashsums of the same directory named through a {how} differs at {k[0]}", {"spec": describe(spec), "links": links})
+            return
     if ha != hb:
         acc.violation("order-dependence", "same content created in another order / with other mtimes gives another tree", {"spec": describe(spec), "links": links})
         return
@@ -467,7 +488,7 @@ def run_unit(u, acc):
 
 def inconclusive(cov):
     c = cov["counters"]
-    return [f"monitor counter {k} is zero" for k in ("trees_hashed", "equal_content_pairs", "escape_checks", "hash_checks", "edits.byte", "edits.inplace-stat-identical", "edits.retarget-same-content", "edits.link2file") if not c.get(k)]
+    return [f"monitor counter {k} is zero" for k in ("trees_hashed", "spellings_hashed", "equal_content_pairs", "escape_checks", "hash_checks", "edits.byte", "edits.inplace-stat-identical", "edits.retarget-same-content", "edits.link2file") if not c.get(k)]
 
 
 def replay(case, acc):
